@@ -13,6 +13,15 @@ C27  Dependency queries report every actual loop-carried or read-after-write val
      writes-before / reads-from the inspection node.
  R3  reads are registered before writes are cleared in the leaf handler (a
      statement ``x = x + 1`` after the inspection point reads x).
+ R4  the loop query is ``uses & defines`` of the attached dataflow sets, so it
+     inherits C26's rule that mutually exclusive alternatives are analysed
+     independently (a write in the IF branch must not hide a read in the ELSE
+     branch from ``uses_symbols``); re-evaluated here on the attacher.
+ R5  branch merge of ``FindReads.visit_Conditional`` by symbolic execution of the
+     handler over the abstract states of ``self.candidate_set`` (C0 = set on
+     entry, K(branch, S) = S after the kills of a branch): every branch must be
+     entered with exactly C0 and the handler must leave the union of the
+     post-states of all branches.
 Not decided: array sections, aliasing.
 """
 import ast
@@ -102,6 +111,86 @@ def run(ctx):
         ok = 'self.active = self.active and o not in self.stop or o in self.start' in s.replace('(', '').replace(')', '')
         (ctx.judge('R2', f'{V.name}.visit activation') if ok else
          ctx.violation('R2', f'{V.name}.visit', v.where, 'activation rule (active and not stop) or start altered'))
+    # ---- R4
+    from sa.rules.c26 import check_alternatives
+    check_alternatives(ctx, m.get_class(FILE, 'DataflowAnalysisAttacher'), 'R4')
+    # ---- R5
+    ctx.rule('R5', 'FindReads.visit_Conditional: each branch is visited with self.candidate_set == C0 and the handler exits with the '
+                   'union of the post-branch states (symbolic execution of the handler body)')
+    vc = FR.function('visit_Conditional')
+    if vc is None:
+        raise AnalysisError('FindReads.visit_Conditional vanished')
+    C0 = frozenset({'C0'})
+    state = {'self.candidate_set': C0}
+    visits = []
+
+    def val(e):
+        if isinstance(e, ast.IfExp):          # `x.copy() if x is not None else None`: the non-None arm
+            return val(e.body)
+        if isinstance(e, ast.Call) and isinstance(e.func, ast.Attribute) and e.func.attr == 'copy' and not e.args:
+            return val(e.func.value)
+        if isinstance(e, ast.Call) and X.call_name_of(e) in ('set', 'OrderedSet', 'frozenset') and len(e.args) == 1:
+            return val(e.args[0])
+        if isinstance(e, ast.BinOp) and isinstance(e.op, ast.BitOr):
+            return val(e.left) | val(e.right)
+        k = ast.unparse(e)
+        if k in state:
+            return state[k]
+        raise AnalysisError(f'FindReads.visit_Conditional: cannot evaluate `{k}` symbolically')
+
+    def run_stmts(stmts):
+        for st in stmts:
+            if isinstance(st, ast.Expr) and isinstance(st.value, ast.Constant):
+                continue
+            if isinstance(st, ast.If):
+                t = ast.unparse(st.test)
+                if t.replace(' ', '') in ('self.candidate_setisnotNone', 'candidate_setisnotNone'):
+                    run_stmts(st.body)
+                    continue
+                raise AnalysisError(f'FindReads.visit_Conditional: unrecognised guard `{t}`')
+            if isinstance(st, ast.Expr) and isinstance(st.value, ast.Call):
+                d = X.dotted_attr(st.value.func) or ''
+                if d == 'self.visit' and st.value.args:
+                    br = ast.unparse(st.value.args[0])
+                    visits.append((br, state['self.candidate_set'], st.lineno))
+                    state['self.candidate_set'] = frozenset({('K', br, state['self.candidate_set'])})
+                    continue
+                if d in ('self._register_reads',):
+                    continue
+                raise AnalysisError(f'FindReads.visit_Conditional: unrecognised call `{ast.unparse(st.value)[:60]}`')
+            if isinstance(st, ast.Assign) and len(st.targets) == 1:
+                tg = st.targets[0]
+                if isinstance(tg, ast.Tuple) and isinstance(st.value, ast.Tuple) and len(tg.elts) == len(st.value.elts):
+                    vals = [val(v) for v in st.value.elts]
+                    for t_, v_ in zip(tg.elts, vals):
+                        state[ast.unparse(t_)] = v_
+                    continue
+                state[ast.unparse(tg)] = val(st.value)
+                continue
+            if isinstance(st, ast.AugAssign) and isinstance(st.op, ast.BitOr):
+                state[ast.unparse(st.target)] = val(st.target) | val(st.value)
+                continue
+            raise AnalysisError(f'FindReads.visit_Conditional: unrecognised statement `{ast.unparse(st)[:60]}`')
+    run_stmts(X.body_nodoc(vc.node) if hasattr(X, 'body_nodoc') else vc.node.body)
+    ctx.floor('R5', 'branch visits in FindReads.visit_Conditional', len(visits), 2)
+    want = frozenset()
+    for br, pre, line in visits:
+        want |= frozenset({('K', br, C0)})
+        inst = f'FindReads.visit_Conditional:enter:{br}'
+        if pre == C0:
+            ctx.judge('R5', inst)
+        else:
+            ctx.violation('R5', inst, f'{vc.module.relpath}:{line}',
+                          f'the branch `{br}` is visited with the candidate set left behind by a sibling branch (state {sorted(map(str, pre))}), '
+                          f'not with the set on entry: a variable overwritten in the IF branch is no longer a candidate while the ELSE branch '
+                          f'is scanned, so its read of the earlier value is not reported')
+    final = state['self.candidate_set']
+    if final == want:
+        ctx.judge('R5', 'FindReads.visit_Conditional:exit', facts={'final': sorted(map(str, final))})
+    else:
+        ctx.violation('R5', 'FindReads.visit_Conditional:exit', vc.where,
+                      f'the handler leaves candidate set {sorted(map(str, final))}, expected the union of the post-states of all branches '
+                      f'{sorted(map(str, want))}: candidates killed on one path only are lost for the code after the conditional')
     # ---- R3
     lf = FR.function('visit_LeafNode')
     calls = [(c.lineno, X.dotted_attr(c.func)) for c in ast.walk(lf.node) if isinstance(c, ast.Call)
@@ -116,6 +205,15 @@ def run(ctx):
 
 
 MUTANTS = [
+    Mutant('else-visited-with-if-state', FILE, "        self.candidate_set, candidate_set = candidate_set, self.candidate_set\n        self.visit(o.else_body, **kwargs)\n",
+           "        self.visit(o.else_body, **kwargs)\n", expect=('R5', 'enter:o.else_body')),
+    Mutant('merge-dropped', FILE, "        if self.candidate_set is not None:\n            self.candidate_set |= candidate_set\n\n    def visit_Loop", "\n    def visit_Loop",
+           expect=('R5', 'visit_Conditional:exit')),
+    Mutant('neutral-two-step-swap', FILE, "        self.candidate_set, candidate_set = candidate_set, self.candidate_set\n",
+           "        after_body = self.candidate_set\n        self.candidate_set = candidate_set\n        candidate_set = after_body\n", expect=None),
+    Mutant('attacher-else-sees-if-defines', FILE, "        else_body, else_defines, uses = self._visit_body(o.else_body, live=live, uses=uses, **kwargs)\n        o._update(body=body, else_body=else_body)\n        return self.visit_Node(o, live_symbols=live, defines_symbols=defines|else_defines",
+           "        else_body, else_defines, uses = self._visit_body(o.else_body, live=live, uses=uses, defines=defines, **kwargs)\n        o._update(body=body, else_body=else_body)\n        return self.visit_Node(o, live_symbols=live, defines_symbols=defines|else_defines",
+           expect=('R4', 'visit_Conditional')),
     Mutant('conditional-as-leaf', FILE,
            "        candidate_set = self.candidate_set.copy() if self.candidate_set is not None else None\n        self.visit(o.body, **kwargs)\n        self.candidate_set, candidate_set = candidate_set, self.candidate_set\n        self.visit(o.else_body, **kwargs)\n        if self.candidate_set is not None:\n            self.candidate_set |= candidate_set\n",
            "        self.visit(o.body, **kwargs)\n        self.visit(o.else_body, **kwargs)\n", expect=('R1', 'Conditional'), quick=True),
